@@ -90,11 +90,15 @@ def leading(draw):
 
 @st.composite
 def addterm_case(draw):
-    ctor = draw(st.sampled_from(['blob', 'blob', 'string', 'terms', 'lhs_eq', 'sector']))
+    ctor = draw(st.sampled_from(['blob', 'blob', 'string', 'terms', 'lhs_eq', 'sector', 'lhs_eq']))
     spec = {'ctor': ctor}
     pool = []
     if ctor in ('blob', 'string', 'lhs_eq', 'sector'):
         spec['lead'] = draw(leading())
+        if draw(st.sampled_from([True, False, False, False, False])):
+            # a step function as leading expression (comparisons; the last valuation makes all variables tie)
+            spec['lead'] = draw(st.sampled_from(['(y>=x)*a', '(a<=b)*x + y', '(a==b)*x', '(a!=b)*y', '(x >= y) - (a <= b)',
+                                                 '(x<=y)', 'a*(b>=a)']))
         pool = [spec['lead']] if spec['lead'] and '+' not in spec['lead'] and '-' not in spec['lead'] and \
             '(' not in spec['lead'] else []
         if ctor == 'lhs_eq' and spec['lead'] == '':
@@ -107,6 +111,11 @@ def addterm_case(draw):
         p_, q_ = draw(atom_name), draw(st.one_of(atom_name, atom_num))
         base_pool += draw(st.lists(st.sampled_from([p_ + '*' + q_, q_ + '*' + p_, p_ + '/' + q_, q_ + '/' + p_,
                                                     p_ + ' / ' + q_, q_ + ' * ' + p_]), min_size=2, max_size=4))
+    if draw(st.sampled_from([True, False, False, False])):
+        # numeric literals that differ only by trailing zeros are different numbers (10 and 100, 20*y and 2*y)
+        v_ = draw(atom_name)
+        base_pool += draw(st.sampled_from([['10', '100', '1'], ['10*' + v_, '100*' + v_], ['20*' + v_, '2*' + v_, '200*' + v_],
+                                           [v_ + '/20', v_ + '/2'], ['1.', '10', '1e1']]))
     from harness import gen
     spec['adds'] = draw(st.lists(signed_term(pool + base_pool), min_size=0, max_size=gen.size(10, 30)))
     spec['desc'] = draw(st.sampled_from(['', 'a description', 'uses = and # inside']))
